@@ -288,20 +288,67 @@ def rule_r3(ctx: Ctx) -> None:
     rt = dtb.methods.get("resolve_top_level_identifier")
     if rt is None:
         raise AnalysisError("anchor resolve_top_level_identifier missing")
-    results = {}
-    for nm in ("K", "_offset_", "nope"):
-        cur = set_public(_new(ctx, dsb), fields=[], union=False, constants=[Sym(name="J", value="VJ"), Sym(name="K", value="VK")], offset=TBls.var("OFFSET"))
-        prev = set_public(_new(ctx, dsb), fields=[], union=False, constants=[Sym(name="K", value="WRONG-SECTION")], offset=TBls.var("OTHER"))
-        me = AObj(dtb, ctx, _structs=[prev, cur])
+    from .builder_common import definition_sym
+    from ..absint import construct
+
+    from ..absint import ctor_hook
+
+    hook_e = _expr_hook(ctx, rt.module, dtb)
+    try:
+        me = construct(ctx, dtb, definition_sym(), [], [], Sym(_kind_="print-handler"), False, hook=ctor_hook(ctx, hook_e, only=[dsb.name]))
+    except (Raised, Unfoldable) as ex:
+        raise AnalysisError("cannot evaluate the constructor of DataTypeBuilder: %s" % ex)
+    slots = [k for k, v in me.__dict__.items() if isinstance(v, list) and v and all(isinstance(x, AObj) and x._cls_ is dsb for x in v)]
+    if len(slots) != 1:
+        raise AnalysisError("DataTypeBuilder: the list of schema sections was not found among %s" % sorted(me.__dict__))
+    sections = me.__dict__[slots[0]]
+
+    def ask(nm: str) -> Any:
         try:
-            results[nm] = Folder({"self": me, "n": nm}, repo, rt.module, dtb, _expr_hook(ctx, rt.module, dtb)).fold(ast.parse("self.resolve_top_level_identifier(n)", mode="eval").body)
+            return Folder({"self": me, "n": nm}, repo, rt.module, dtb, hook_e).fold(ast.parse("self.resolve_top_level_identifier(n)", mode="eval").body)
         except Raised as r:
-            results[nm] = "raise " + r.cls_name
+            return "raise " + r.cls_name
         except Unfoldable as ex:
             raise AnalysisError("%s: cannot evaluate: %s" % (rt.short, ex))
-        ctx.count()
-    want_r = {"K": "VK", "_offset_": ("Set", (("Rational", ("ELEMENTS-OF", ("var", "OFFSET", 1))),)), "nope": "raise UndefinedIdentifierError"}
-    ctx.check(repr(results) == repr(want_r), rt.short, "_offset_ -> Set(map(Rational, current schema's offset)); constants of the current schema by name", "`_offset_` evaluates to the set of lengths of everything before this point in the current schema", rt.where(), {k: repr(v)[:120] for k, v in results.items()})
+
+    def section(n_fields: int, offset: str, consts: List[Any]) -> Any:
+        return set_public(_new(ctx, dsb), fields=[Sym(name="f%d" % i, _isa_=FIELD) for i in range(n_fields)], union=False, constants=consts, offset=TBls.var(offset))
+
+    def elements(v: str) -> Any:
+        return ("Set", (("Rational", ("ELEMENTS-OF", ("var", v, 1))),))
+
+    # the same builder is asked again and again while the current section grows and a new section begins: every answer
+    # must be the offset of the current section as it is *now* (no stale answer from an earlier state or section)
+    K = [Sym(name="J", value="VJ"), Sym(name="K", value="VK")]
+    W = [Sym(name="K", value="WRONG-SECTION")]
+    states = {
+        "request, 1 field": (lambda: [section(1, "O1", K)], "O1"),
+        "request, 2 fields": (lambda: [section(2, "O2", K)], "O2"),
+        "response, 1 field": (lambda: [section(2, "O2", W), section(1, "O3", K)], "O3"),
+        "response, 2 fields": (lambda: [section(2, "O2", W), section(2, "O4", K)], "O4"),
+        "response, no field": (lambda: [section(1, "O1", W), section(0, "O5", K)], "O5"),
+    }
+    bad_seq = []
+    for a_label, (a_make, a_var) in states.items():
+        for b_label, (b_make, b_var) in states.items():
+            # a fresh builder is asked in state A and then in state B: no answer may be carried over
+            try:
+                me = construct(ctx, dtb, definition_sym(), [], [], Sym(_kind_="print-handler"), False, hook=ctor_hook(ctx, hook_e, only=[dsb.name]))
+            except (Raised, Unfoldable) as ex:
+                raise AnalysisError("cannot evaluate the constructor of DataTypeBuilder: %s" % ex)
+            sections = me.__dict__[slots[0]]
+            for label, make, want_var in ((a_label, a_make, a_var), (a_label + " (asked again)", None, a_var), (b_label, b_make, b_var)):
+                if make is not None:
+                    sections[:] = make()
+                got = ask("_offset_")
+                ctx.count()
+                if repr(got) != repr(elements(want_var)):
+                    bad_seq.append({"asked in": "%s, then %s" % (a_label, b_label), "at": label, "found": repr(got)[:120], "expected": repr(elements(want_var))})
+    sections[:] = states["response, 1 field"][0]()
+    results = {"K": ask("K"), "nope": ask("nope")}
+    ctx.count(2)
+    want_r = {"K": "VK", "nope": "raise UndefinedIdentifierError"}
+    ctx.check(not bad_seq and repr(results) == repr(want_r), rt.short, "_offset_ -> Set(map(Rational, current schema's offset)) at every point of a growing two-section definition; constants of the current schema by name", "`_offset_` evaluates to the set of lengths of everything before this point in the current schema", rt.where(), {"offset": bad_seq[:3], "identifiers": {k: repr(v)[:120] for k, v in results.items()}})
     # _bit_length_ / _extent_
     ser = ctx.cls(SER + "_serializable.SerializableType")
     comp = ctx.cls(SER + "_composite.CompositeType")
